@@ -49,6 +49,7 @@ StoreClauses(r, e, name) ==
     /\ P("C03", name \o ": samples in the unit hypercube", r.in_unit)
     /\ P("C03", name \o ": stored log-likelihood = model at the physical point", r.logL_ok)
     /\ P("C03", name \o ": one density column per proposal", r.ncols = e.nprop /\ r.rows = r.n)
+    /\ P("C04", name \o ": strict threshold: live set = the samples at or above it", r.strict_ok)
     /\ P("C04", name \o ": sorted", r.sorted)
     /\ P("C04", name \o ": partition", r.partition)
     /\ P("C04", name \o ": live+nested = all", (IF r.n_live < 0 THEN 0 ELSE r.n_live) + r.n_nested = r.n)
